@@ -750,6 +750,20 @@ func (e *engine) urlCases() {
 				mon = "ParseURLs accepted ⇎ every entry parses (empty entries only if allowed)"
 			} else if wantOK && len(out) != cnt {
 				mon = "ParseURLs does not return exactly the non-empty entries"
+			} else if wantOK {
+				// content and order, against net/url on each entry
+				j := 0
+				for _, s := range l {
+					if s == "" {
+						continue
+					}
+					u, _ := url.Parse(s)
+					if out[j] == nil || urlCanon(out[j]) != urlCanon(u) {
+						mon = fmt.Sprintf("ParseURLs: element %d is not the URL of the entry %q", j, s)
+						break
+					}
+					j++
+				}
 			}
 		}
 		e.rep.Compare(op, model, canonPanic(impl), "urls."+head(model), "config.urls", mon)
@@ -787,7 +801,7 @@ func (e *engine) runC38() {
 		"protoId.ok", "protoId.err.empty", "protoId.ok.empty", "protoId.err.badutf8", "protoIds.ok", "protoIds.err", "protoIdsUnique.ok", "protoIdsUnique.err",
 		"peerId.ok", "peerId.err", "peerIds.ok", "peerIds.err", "peerIdsUnique.ok", "peerIdsUnique.err",
 		"tptAddr.ok", "tptAddr.err", "peerAddrMap", "peerAddrMap.errs", "peerAddrMap.merged",
-		"validatePeerId.1", "validatePeerId.0.parse-rejects", "validatePeerId.0.empty", "staticCtl.ok", "staticCtl.err", "staticCtl.bus",
+		"validatePeerId.1", "validatePeerId.0.parse-rejects", "validatePeerId.0.empty", "staticCtl.ok", "staticCtl.err", "staticCtl.bus", "staticCtl.factory", "staticCtl.factory-err", "trunc.text",
 		"duration.ok", "duration.err", "marshalDuration", "marshalDuration.zero",
 		"timestamp.ok", "timestamp.oknil", "timestamp.err", "marshalTimestamp.nanos", "marshalTimestamp.whole", "marshalTimestamp.out-of-range", "marshalTimestamp.nil",
 		"url.ok", "url.oknil", "url.err", "validateUrl.ok", "validateUrl.err", "urls.ok", "urls.err", "regexp.ok", "regexp.oknil", "regexp.err",
@@ -800,4 +814,5 @@ func (e *engine) runC38() {
 	e.timestampCases()
 	e.urlCases()
 	e.runC38History()
+	e.runC38Trunc()
 }
